@@ -63,56 +63,105 @@ func checkC13(c *Check) {
 		tv, ok := info.Types[ix.Index]
 		return ok && tv.Value != nil && tv.Value.String() == "0"
 	}
-	// the two record lists
-	var eeObj, taObj types.Object
-	usageOf := map[types.Object]int64{}
-	var recLoop *ast.RangeStmt
-	ast.Inspect(r.FI.Decl.Body, func(n ast.Node) bool {
-		cc, ok := n.(*ast.CaseClause)
-		if !ok {
-			return true
-		}
-		for _, st := range cc.Body {
-			as, ok := st.(*ast.AssignStmt)
-			if !ok || len(as.Lhs) != 1 || len(as.Rhs) != 1 {
-				continue
-			}
-			if o, args := appendTarget(info, as.Lhs[0], as.Rhs[0]); o != nil && len(args) == 1 && len(cc.List) == 1 {
-				if tv, ok := info.Types[cc.List[0]]; ok && tv.Value != nil {
-					if v, ok := constant.Int64Val(tv.Value); ok {
-						usageOf[o] = v
-					}
-				}
-			}
-		}
-		return true
-	})
-	for o, u := range usageOf {
-		if u == 3 {
-			eeObj = o
-		}
-		if u == 2 {
-			taObj = o
+	// The record lists and what reaches them. Independent of the syntactic form of the filters (switch, if-chain,
+	// continue-guards): the classification loop is evaluated in model worlds – every record has usage u, selector s
+	// and matching type m – and an append site is "fed" in a world iff it is reachable there.
+	var recsParam types.Object
+	for _, po := range paramObjs(r.FI) {
+		if sl, ok := po.Type().Underlying().(*types.Slice); ok && typeIs(sl.Elem(), "github.com/miekg/dns", "TLSA") {
+			recsParam = po
 		}
 	}
-	// verification sites: which record list does rec range over?
 	rangeVarList := map[types.Object]types.Object{} // range value var -> ranged list object
 	ast.Inspect(r.FI.Decl.Body, func(n ast.Node) bool {
 		if rs, ok := n.(*ast.RangeStmt); ok && rs.Value != nil {
 			rangeVarList[objOf(info, rs.Value)] = objOf(info, rs.X)
-			if prm := paramObjs(r.FI)["recs"]; prm != nil && objOf(info, rs.X) == prm {
-				recLoop = rs
-			}
 		}
 		return true
 	})
-	if recLoop == nil {
-		for _, rs := range rangesIn(r.FI.Decl.Body, func(rs *ast.RangeStmt) bool { _, isP := objOf(info, rs.X).(*types.Var); return isP }) {
-			for _, po := range paramObjs(r.FI) {
-				if objOf(info, rs.X) == po {
-					recLoop = rs
-				}
+	// elemListOf: the list an expression is an element of (range value, L[i], or a local defined once as L[i])
+	elemListOf := func(e ast.Expr) types.Object {
+		e = ast.Unparen(e)
+		if ix, ok := e.(*ast.IndexExpr); ok {
+			return objOf(info, ix.X)
+		}
+		o := objOf(info, e)
+		if o == nil {
+			return nil
+		}
+		if l := rangeVarList[o]; l != nil {
+			return l
+		}
+		if def, n := localDef(info, r.FI.Decl.Body, o); n == 1 && def != nil {
+			if ix, ok := ast.Unparen(def).(*ast.IndexExpr); ok {
+				return objOf(info, ix.X)
 			}
+		}
+		return nil
+	}
+	type appendSite struct {
+		pt   Pt
+		list types.Object
+	}
+	var appends []appendSite
+	for _, pt := range r.F.Points() {
+		as, ok := pt.Node().(*ast.AssignStmt)
+		if !ok || len(as.Lhs) != 1 || len(as.Rhs) != 1 {
+			continue
+		}
+		if o, args := appendTarget(info, as.Lhs[0], as.Rhs[0]); o != nil && len(args) == 1 && recsParam != nil && elemListOf(args[0]) == recsParam {
+			appends = append(appends, appendSite{pt, o})
+		}
+	}
+	recWorld := func(u, sel, mt int64) func(b *cfgBlock, i int) bool {
+		return r.F.ValueWorld(func(e ast.Expr) (constant.Value, bool) {
+			se, ok := ast.Unparen(e).(*ast.SelectorExpr)
+			if !ok || fieldOf(info, se) == nil || elemListOf(se.X) != recsParam || recsParam == nil {
+				return nil, false
+			}
+			switch se.Sel.Name {
+			case "Usage":
+				return constant.MakeInt64(u), true
+			case "Selector":
+				return constant.MakeInt64(sel), true
+			case "MatchingType":
+				return constant.MakeInt64(mt), true
+			}
+			return nil, false
+		})
+	}
+	fed := func(list types.Object, u, sel, mt int64) bool {
+		w := recWorld(u, sel, mt)
+		for _, a := range appends {
+			if a.list != list {
+				continue
+			}
+			if _, f := r.F.Reach(Query{From: r.Entry(), Inclusive: true, Target: func(q Pt) bool { return q == a.pt }, AvoidEdge: w}); f {
+				return true
+			}
+		}
+		return false
+	}
+	lists := map[types.Object]bool{}
+	for _, a := range appends {
+		lists[a.list] = true
+	}
+	// usages feeding each list with a usable selector / matching type
+	usageOf := map[types.Object][]int64{}
+	for l := range lists {
+		for u := int64(0); u <= 4; u++ {
+			if fed(l, u, 0, 1) || fed(l, u, 1, 0) || fed(l, u, 1, 2) {
+				usageOf[l] = append(usageOf[l], u)
+			}
+		}
+	}
+	var eeObj, taObj types.Object
+	for l, us := range usageOf {
+		if len(us) == 1 && us[0] == 3 {
+			eeObj = l
+		}
+		if len(us) == 1 && us[0] == 2 {
+			taObj = l
 		}
 	}
 	// error variables assigned from x509 Verify in an if-init
@@ -136,7 +185,8 @@ func checkC13(c *Check) {
 		if call, ok := ast.Unparen(be.X).(*ast.CallExpr); ok && isTLSAVerify(call) {
 			// EE verification: record from the usage-3 list against the server's own certificate
 			rv := recvObj(info, call)
-			if eeObj != nil && rangeVarList[rv] == eeObj && len(call.Args) == 1 && isPeer0(call.Args[0]) {
+			if eeObj != nil && elemListOf(callRecv(call)) == eeObj && len(call.Args) == 1 && isPeer0(call.Args[0]) {
+				_ = rv
 				return be.Op == token.EQL, true
 			}
 			return false, false
@@ -175,7 +225,7 @@ func checkC13(c *Check) {
 	nEE, nTA := 0, 0
 	ast.Inspect(r.FI.Decl.Body, func(n ast.Node) bool {
 		if call, ok := n.(*ast.CallExpr); ok {
-			if isTLSAVerify(call) && rangeVarList[recvObj(info, call)] == eeObj && eeObj != nil {
+			if isTLSAVerify(call) && elemListOf(callRecv(call)) == eeObj && eeObj != nil {
 				nEE++
 			}
 			if isX509Verify(call) {
@@ -229,7 +279,7 @@ func checkC13(c *Check) {
 				return false, false
 			}
 			if vc, ok := ast.Unparen(be.X).(*ast.CallExpr); ok && isTLSAVerify(vc) && len(vc.Args) == 1 && objOf(info, vc.Args[0]) == certArg &&
-				taObj != nil && rangeVarList[recvObj(info, vc)] == taObj {
+				taObj != nil && elemListOf(callRecv(vc)) == taObj {
 				return be.Op == token.EQL, true
 			}
 			return false, false
@@ -284,71 +334,52 @@ func checkC13(c *Check) {
 	c.Hold("R1b", "verifyDANE:options-not-overwritten", r.FI.Decl.Pos(), !otherStore, "the verification options' roots or name are overwritten after construction")
 
 	// ---- R2
-	c.Hold("R2", "verifyDANE:usage-lists", r.FI.Decl.Pos(), eeObj != nil && taObj != nil && len(usageOf) == 2, "expected exactly two record lists: usage 3 (DANE-EE) and usage 2 (DANE-TA)")
-	if recLoop != nil {
-		// the filter switches
-		allowed := map[string]map[int64]bool{"MatchingType": {0: true, 1: true, 2: true}, "Selector": {0: true, 1: true}}
-		for field, set := range allowed {
-			okF := false
-			why := "no filter on " + field
-			for _, st := range recLoop.Body.List {
-				sw, ok := st.(*ast.SwitchStmt)
-				if !ok || sw.Tag == nil {
-					continue
-				}
-				sel, ok := ast.Unparen(sw.Tag).(*ast.SelectorExpr)
-				if !ok || sel.Sel.Name != field || objOf(info, sel.X) != objOf(info, recLoop.Value) {
-					continue
-				}
-				okF, why = true, ""
-				hasDefaultContinue := false
-				for _, cl := range sw.Body.List {
-					cc := cl.(*ast.CaseClause)
-					if cc.List == nil {
-						for _, s := range cc.Body {
-							if b, ok := s.(*ast.BranchStmt); ok && b.Tok == token.CONTINUE {
-								hasDefaultContinue = true
-							}
-						}
-						continue
+	{
+		msg := ""
+		for l, us := range usageOf {
+			if l != eeObj && l != taObj {
+				msg = "list " + l.Name() + " collects records of usages " + fmtInts(us) + " (expected exactly one list for usage 3 and one for usage 2)"
+			}
+		}
+		if eeObj == nil || taObj == nil {
+			msg = "expected exactly two record lists: usage 3 (DANE-EE) only and usage 2 (DANE-TA) only" + map[bool]string{true: "", false: "; " + msg}[msg == ""]
+		}
+		c.Hold("R2", "verifyDANE:usage-lists", r.FI.Decl.Pos(), msg == "" && len(lists) == 2, msg)
+		// out-of-range selectors / matching types reach no list, whatever the usage
+		for _, fld := range []struct {
+			name    string
+			sel, mt int64
+		}{{"Selector", 2, 1}, {"Selector", 255, 0}, {"MatchingType", 0, 3}, {"MatchingType", 1, 255}} {
+			bad := ""
+			for l := range lists {
+				for u := int64(0); u <= 4; u++ {
+					if fed(l, u, fld.sel, fld.mt) {
+						bad = "a record with usage " + itoa(int(u)) + ", selector " + itoa(int(fld.sel)) + ", matching type " + itoa(int(fld.mt)) + " reaches list " + l.Name() + ": an unusable record would count as usable (refusing the connection, or hiding that only unusable records exist)"
 					}
-					for _, e := range cc.List {
-						tv, ok := info.Types[e]
-						v, ok2 := int64(0), false
-						if ok && tv.Value != nil {
-							v, ok2 = constant.Int64Val(tv.Value)
-						}
-						if !ok2 || !set[v] {
-							okF, why = false, "value "+exprStr(e)+" of "+field+" is treated as usable"
-						}
-						// a case that does not fall out of the switch normally (continue/return) is fine too
-					}
-				}
-				if !hasDefaultContinue {
-					okF, why = false, "records with an out-of-range "+field+" are not skipped"
 				}
 			}
-			// the appends must come after the filter in the loop body
-			c.Hold("R2", "verifyDANE:filter:"+field, recLoop.Pos(), okF, why)
+			key := "verifyDANE:filter:" + fld.name
+			if fld.sel == 255 || fld.mt == 255 {
+				key += ":255"
+			}
+			c.Hold("R2", key, r.FI.Decl.Pos(), bad == "" && len(lists) > 0, bad)
 		}
-		// appends only inside the usage switch, which is after the filters
-		okOrder := false
-		seenFilters := 0
-		for _, st := range recLoop.Body.List {
-			if sw, ok := st.(*ast.SwitchStmt); ok && sw.Tag != nil {
-				if sel, ok := ast.Unparen(sw.Tag).(*ast.SelectorExpr); ok {
-					switch sel.Sel.Name {
-					case "MatchingType", "Selector":
-						seenFilters++
-					case "Usage":
-						okOrder = seenFilters == 2
+		// every usable combination of a usage-2/3 record does reach its list (nothing usable is dropped)
+		miss := ""
+		for _, u := range []int64{2, 3} {
+			l := taObj
+			if u == 3 {
+				l = eeObj
+			}
+			for sel := int64(0); sel <= 1 && l != nil; sel++ {
+				for mt := int64(0); mt <= 2; mt++ {
+					if !fed(l, u, sel, mt) {
+						miss = "a usable record (usage " + itoa(int(u)) + ", selector " + itoa(int(sel)) + ", matching type " + itoa(int(mt)) + ") is dropped"
 					}
 				}
 			}
 		}
-		c.Hold("R2", "verifyDANE:filters-before-classification", recLoop.Pos(), okOrder, "records are classified by usage before the selector / matching-type filters ran")
-	} else {
-		c.Fail("R2", "verifyDANE:record-loop", r.FI.Decl.Pos(), "undecided: no loop over the records parameter")
+		c.Hold("R2", "verifyDANE:usable-kept", r.FI.Decl.Pos(), miss == "" && eeObj != nil && taObj != nil, miss)
 	}
 
 	// ---- R3
@@ -371,17 +402,35 @@ func checkC13(c *Check) {
 	})
 	path, f = r.F.Reach(Query{From: r.Entry(), Inclusive: true, Target: usesPeer, AvoidEdge: hs})
 	c.Hold("R3", "verifyDANE:no-tls-no-certs", r.FI.Decl.Pos(), !f, "the peer certificates are accessed on a path where the handshake is not known to be complete (index out of range / acceptance without TLS): "+r.F.Describe(path))
-	// without handshake: every exit is an error unless no records at all
-	noHS := r.F.AvoidImplying(func(atom ast.Expr) (bool, bool) {
-		if s, ok := ast.Unparen(atom).(*ast.SelectorExpr); ok && s.Sel.Name == "HandshakeComplete" {
-			return true, true // remove "handshake complete" edges: we are in the no-TLS world
-		}
-		// and we are in the "records exist" world: remove edges establishing len(recs) == 0
-		if s, ok := lenZeroEdge(info, atom); ok && recLoop != nil && mentions(info, atom, objOf(info, recLoop.X)) {
-			return s == 0, true
+	// Worlds over the three facts the function branches on: records present, handshake complete, usable lists empty.
+	lenAtom := func(atom ast.Expr, obj types.Object, zero bool) (bool, bool) {
+		if s, ok := lenZeroEdge(info, atom); ok && obj != nil && mentions(info, atom, obj) {
+			// successor s is taken when the length is zero; the atom is true on successor 0
+			return (s == 0) == zero, true
 		}
 		return false, false
-	})
+	}
+	mkWorld := func(hasRecs, handshake bool, eeEmpty, taEmpty int) func(b *cfgBlock, i int) bool {
+		return r.F.World(func(atom ast.Expr) (bool, bool) {
+			if s, ok := ast.Unparen(atom).(*ast.SelectorExpr); ok && s.Sel.Name == "HandshakeComplete" {
+				return handshake, true
+			}
+			if v, k := lenAtom(atom, recsParam, !hasRecs); k {
+				return v, k
+			}
+			if eeEmpty >= 0 {
+				if v, k := lenAtom(atom, eeObj, eeEmpty == 1); k {
+					return v, k
+				}
+			}
+			if taEmpty >= 0 {
+				if v, k := lenAtom(atom, taObj, taEmpty == 1); k {
+					return v, k
+				}
+			}
+			return false, false
+		})
+	}
 	nonErr := func(pt Pt) bool {
 		k, ret := r.F.Exit(pt)
 		if k == NotExit || k == ExitPanic {
@@ -401,52 +450,28 @@ func checkC13(c *Check) {
 		}
 		return true
 	}
-	path, f = r.F.Reach(Query{From: r.Entry(), Inclusive: true, Target: nonErr, AvoidEdge: noHS})
-	c.Hold("R3", "verifyDANE:records-without-tls-refused", r.FI.Decl.Pos(), !f, "with TLSA records present and no completed handshake the function can return without an error (delivery over plaintext despite DANE): "+r.F.Describe(path))
-	// (ii) after the "usable records exist" point, returning (x, nil) needs a match: covered by R1 for true; (false, nil) must be unreachable
-	usable := r.F.AvoidImplying(func(atom ast.Expr) (bool, bool) {
-		// remove edges establishing len(eeRecs) == 0 or len(taRecs) == 0 only jointly: handled by evaluating the whole atom
-		if s, ok := lenZeroEdge(info, atom); ok && (mentions(info, atom, eeObj) && eeObj != nil) {
-			return s == 0, true
-		}
-		return false, false
-	})
 	falseNil := func(pt Pt) bool {
 		_, ret := r.F.Exit(pt)
 		b, bk, en, ek := retBoolErr(info, ret)
 		return bk && !b && ek && en
 	}
-	// start after the record loop (RangeDone of recLoop)
-	if recLoop != nil {
-		var done []Pt
-		for _, b := range r.F.G.Blocks {
-			if b.Kind == kindRangeDone && b.Stmt == ast.Stmt(recLoop) {
-				done = append(done, Pt{b, 0})
-			}
+	// records exist, no completed handshake: every exit is an error
+	path, f = r.F.Reach(Query{From: r.Entry(), Inclusive: true, Target: nonErr, AvoidEdge: mkWorld(true, false, -1, -1)})
+	c.Hold("R3", "verifyDANE:records-without-tls-refused", r.FI.Decl.Pos(), !f && recsParam != nil, "with TLSA records present and no completed handshake the function can return without an error (delivery over plaintext despite DANE): "+r.F.Describe(path))
+	// (ii) usable records exist (either list non-empty): (false, nil) is unreachable – acceptance needs a match (R1), everything else is an error
+	msg3 := ""
+	for _, w := range [][2]int{{0, 1}, {1, 0}, {0, 0}} {
+		if p3, f3 := r.F.Reach(Query{From: r.Entry(), Inclusive: true, Target: falseNil, AvoidEdge: mkWorld(true, true, w[0], w[1])}); f3 {
+			msg3 = "with a usable record and no match the function can return (false, nil): the connection is used unauthenticated instead of being refused: " + r.F.Describe(p3)
 		}
-		path, f = r.F.Reach(Query{From: done, Inclusive: true, Target: falseNil, AvoidEdge: usable})
-		c.Hold("R3", "verifyDANE:usable-no-match-refused", r.FI.Decl.Pos(), !f, "with a usable DANE-EE record and no match the function can return (false, nil): the connection is used unauthenticated instead of being refused: "+r.F.Describe(path))
-		// (iii) no usable records ⇒ a (false, nil) return exists right after the loop
-		hasNone := false
-		ast.Inspect(r.FI.Decl.Body, func(n ast.Node) bool {
-			is, ok := n.(*ast.IfStmt)
-			if !ok || is.Pos() < recLoop.End() {
-				return true
-			}
-			if mentions(info, is.Cond, eeObj) && mentions(info, is.Cond, taObj) {
-				for _, s := range is.Body.List {
-					if ret, ok := s.(*ast.ReturnStmt); ok {
-						b, bk, en, ek := retBoolErr(info, ret)
-						if bk && !b && ek && en {
-							hasNone = true
-						}
-					}
-				}
-			}
-			return true
-		})
-		c.Hold("R3", "verifyDANE:only-unusable-neutral", r.FI.Decl.Pos(), hasNone, "exclusively unusable records do not lead to the neutral result (false, nil): they would refuse or authenticate a TLS connection")
 	}
+	c.Hold("R3", "verifyDANE:usable-no-match-refused", r.FI.Decl.Pos(), msg3 == "" && eeObj != nil && taObj != nil, msg3)
+	// (iii) records exist but none is usable (both lists empty), TLS up: the only outcome is the neutral (false, nil)
+	notNeutral := func(pt Pt) bool { return r.F.IsExitPt(pt) && !falseNil(pt) }
+	wNone := mkWorld(true, true, 1, 1)
+	p4, f4 := r.F.Reach(Query{From: r.Entry(), Inclusive: true, Target: notNeutral, AvoidEdge: wNone})
+	_, f5 := r.F.Reach(Query{From: r.Entry(), Inclusive: true, Target: falseNil, AvoidEdge: wNone})
+	c.Hold("R3", "verifyDANE:only-unusable-neutral", r.FI.Decl.Pos(), !f4 && f5 && eeObj != nil && taObj != nil, "exclusively unusable records do not lead to the neutral result (false, nil): they would refuse or authenticate a TLS connection: "+r.F.Describe(p4))
 
 	// ---- R4 CheckConn
 	cc := c.need("R4", remoteRel, "daneDelivery", "CheckConn")
@@ -544,49 +569,90 @@ func checkC13(c *Check) {
 	// the discovery itself: an error of any resolver call that is not "not found" ends the discovery with that
 	// error – it is never treated like an empty answer (no fall-through to another lookup, no nil-error return)
 	c.Rule("R5", "discoverTLSA: a resolver error other than not-found is returned; it never falls through to a further lookup or to a 'no records' result", 3)
-	if rd := c.need("R5", remoteRel, "daneDelivery", "discoverTLSA"); rd != nil {
-		di := rd.Info
-		isResolver := func(info *types.Info, call *ast.CallExpr) bool {
+	if rd0 := c.need("R5", remoteRel, "daneDelivery", "discoverTLSA"); rd0 != nil {
+		isResolverName := func(call *ast.CallExpr) bool {
 			switch methodName(call) {
 			case "AuthLookupTLSA", "CheckCNAMEAD", "AuthLookupCNAME", "AuthLookupHost", "AuthLookupIPAddr":
 				return true
 			}
 			return false
 		}
-		calls := rd.Calls(isResolver)
-		if len(calls) < 3 {
-			c.Fail("R5", "discoverTLSA:lookups", rd.FI.Decl.Pos(), "undecided: expected the CNAME/AD check and the TLSA lookups")
-		}
-		for i, cp := range calls {
-			call := rd.CallAt(cp, isResolver)
-			key := "discoverTLSA:" + methodName(call) + itoa(i+1)
-			eo := errVarAssigned(di, cp.Node(), call)
-			if eo == nil {
-				c.Hold("R5", key, call.Pos(), false, "the error of "+methodName(call)+" is dropped")
-				continue
+		// the discovery cone: discoverTLSA and the functions of the package it calls that perform lookups themselves
+		cone := []*RuleCtx{rd0}
+		inCone := map[*types.Func]bool{rd0.FI.Obj: true}
+		for qi := 0; qi < len(cone) && qi < 8; qi++ {
+			g := cone[qi]
+			for _, call := range callsIn(g.FI.Decl.Body) {
+				fn := callee(g.Info, call)
+				if fn == nil || fn.Pkg() != g.FI.Obj.Pkg() || inCone[fn] {
+					continue
+				}
+				d := c.P.DeclOf(fn)
+				if d == nil || d.Decl.Body == nil {
+					continue
+				}
+				has := false
+				for _, c2 := range callsIn(d.Decl.Body) {
+					if isResolverName(c2) {
+						has = true
+					}
+				}
+				if has {
+					inCone[fn] = true
+					cone = append(cone, c.CtxOf(d))
+				}
 			}
-			// world: the error is not a not-found error
-			world := rd.F.World(func(atom ast.Expr) (bool, bool) {
-				if ic, ok := ast.Unparen(atom).(*ast.CallExpr); ok && isCall(di, ic, dnsPkg+".IsNotFound") && len(ic.Args) == 1 && objOf(di, ic.Args[0]) == eo {
-					return false, true
-				}
-				if ns, ok := nilTest(di, atom, eo); ok {
-					return ns == 1, true // the atom is true iff it says "non-nil"
-				}
-				return false, false
-			})
-			bad := func(pt Pt) bool {
-				if pt == cp {
-					return false
-				}
-				if rd.IsCallPt(isResolver)(pt) {
+		}
+		total := 0
+		for _, rd := range cone {
+			di := rd.Info
+			isResolver := func(info *types.Info, call *ast.CallExpr) bool {
+				if isResolverName(call) {
 					return true
 				}
-				_, ret := rd.F.Exit(pt)
-				return ret != nil && len(ret.Results) == 2 && isNilIdent(di, ret.Results[1])
+				fn := callee(info, call)
+				return fn != nil && inCone[fn] && fn != rd.FI.Obj
 			}
-			path, f := rd.F.ReachRefined2(cp, eo, false, false, bad, nil, world)
-			c.Hold("R5", key, call.Pos(), !f, "a failed "+methodName(call)+" (SERVFAIL, bogus signature, time-out) is treated like an empty answer: discovery goes on / reports 'no records' and the delivery proceeds without DANE instead of being deferred: "+rd.F.Describe(path))
+			calls := rd.Calls(isResolver)
+			for i, cp := range calls {
+				call := rd.CallAt(cp, isResolver)
+				total++
+				name := methodName(call)
+				if name == "" {
+					name = exprStr(call.Fun)
+				}
+				key := rd.FI.Obj.Name() + ":" + name + itoa(i+1)
+				eo := errVarAssigned(di, cp.Node(), call)
+				if eo == nil {
+					c.Hold("R5", key, call.Pos(), false, "the error of "+name+" is dropped")
+					continue
+				}
+				// world: the error is not a not-found error
+				world := rd.F.World(func(atom ast.Expr) (bool, bool) {
+					if ic, ok := ast.Unparen(atom).(*ast.CallExpr); ok && isCall(di, ic, dnsPkg+".IsNotFound") && len(ic.Args) == 1 && objOf(di, ic.Args[0]) == eo {
+						return false, true
+					}
+					if ns, ok := nilTest(di, atom, eo); ok {
+						return ns == 1, true // the atom is true iff it says "non-nil"
+					}
+					return false, false
+				})
+				bad := func(pt Pt) bool {
+					if pt == cp {
+						return false
+					}
+					if rd.IsCallPt(isResolver)(pt) {
+						return true
+					}
+					_, ret := rd.F.Exit(pt)
+					return ret != nil && len(ret.Results) >= 2 && isNilIdent(di, ret.Results[len(ret.Results)-1])
+				}
+				path, f := rd.F.ReachRefined2(cp, eo, false, false, bad, nil, world)
+				c.Hold("R5", key, call.Pos(), !f, "a failed "+name+" (SERVFAIL, bogus signature, time-out) is treated like an empty answer: discovery goes on / reports 'no records' and the delivery proceeds without DANE instead of being deferred: "+rd.F.Describe(path))
+			}
+		}
+		if total < 3 {
+			c.Fail("R5", "discoverTLSA:lookups", rd0.FI.Decl.Pos(), "undecided: expected the CNAME/AD check and the TLSA lookups")
 		}
 	}
 	// R6: the TLSA result is bound to the connection it was looked up for. One daneDelivery serves every MX tried
@@ -683,4 +749,16 @@ func checkC13(c *Check) {
 			c.Hold("R6", "tlsaFut:single-writer", pc.FI.Decl.Pos(), bad == "", "a future is installed for the whole delivery by "+bad+": a future is single-assignment, so every connection after the first would be judged by the first MX's TLSA result")
 		}
 	}
+}
+
+
+func fmtInts(v []int64) string {
+	s := "{"
+	for i, x := range v {
+		if i > 0 {
+			s += ","
+		}
+		s += itoa(int(x))
+	}
+	return s + "}"
 }
